@@ -234,6 +234,30 @@ def judge_render(recs, workers=8, heap_mb=2048, timeout=900):
     return out, res
 
 
+_BLT = re.compile(r'^"<<\\"BLT\\", (\d+), \{(.*)\}>>"\s*$', re.M)
+
+
+def judge_blt(recs, fixed, workers=8, heap_mb=2048, timeout=900):
+    tmp = tempfile.mkdtemp(prefix='vtr-')
+    try:
+        path = os.path.join(tmp, 'recs.ndjson')
+        with open(path, 'w') as f:
+            for t in recs:
+                f.write(json.dumps(t, separators=(',', ':')) + '\n')
+        nw = max(1, min(workers, len(recs)))
+        cfg = 'INIT Init\nNEXT Next\nINVARIANT Judged\nCONSTANTS\n  NW = %d\n  FIXED = {%s}\n' % (nw, ', '.join('"%s"' % x for x in fixed))
+        res = tlc('TraceBlt', cfg, env={'TRACE_FILE': path}, workers=nw, heap_mb=heap_mb, timeout=timeout)
+    finally:
+        shutil.rmtree(tmp, ignore_errors=True)
+    if res['out'].count('BLTDONE') != nw or res['distinct'] != len(recs):
+        i = res['out'].find('Error:')
+        raise Machinery('TLC judged %d of %d texts:\n%s' % (res['distinct'], len(recs), res['out'][i:i + 2500] if i >= 0 else res['out'][-2500:]))
+    out = {}
+    for m in _BLT.finditer(res['out']):
+        out[int(m.group(1))] = re.findall(r'\\"([^"\\]+)\\"', m.group(2))
+    return out, res
+
+
 _PAIR = re.compile(r'^"<<\\"PAIR\\", (\d+), (TRUE|FALSE), (\{.*\})>>"\s*$', re.M)
 _PFAIL = re.compile(r'<<\\"([^"\\]*)\\", (\d+)>>')
 
